@@ -173,6 +173,27 @@ theorem reportable_exists {k : Nat} (h : minCircleLen g = some k) : ∃ c, repor
     · rw [h, hlen, hcl]
     · rw [getLastD_cons, hlast]; exact hue
 
+theorem checkDAG_circle {g : Graph} {k : Nat} (h : checkDAG g = .circle k) :
+    Closed g ∧ minCircleLen g = some k := by
+  unfold checkDAG at h
+  cases hm : missing g with
+  | true => simp [hm] at h
+  | false =>
+    refine ⟨missing_false_iff.mp hm, ?_⟩
+    simp only [hm, Bool.false_eq_true, if_false, makeLayers] at h
+    cases hl : layersOf g with
+    | none => simp [hl] at h
+    | some ls =>
+      simp only [hl] at h
+      by_cases hleft : leftOf g ls = []
+      · simp [hleft] at h
+      · simp only [hleft, if_false] at h
+        cases hc : minCircleLen g with
+        | none => simp [hc] at h
+        | some k' =>
+          simp only [hc, Check.circle.injEq] at h
+          rw [h]
+
 /-! ### a closed walk with a repeated node contains a shorter one -/
 
 theorem exists_dup_of_not_nodup : ∀ (l : List Nat), ¬ l.Nodup →
